@@ -204,7 +204,11 @@ def attr_default(tag):
 def read_attr(m, cont, tag):
     c = getattr(m, cont)
     at = c.get_attribute("c06_" + tag)
-    return [np.asarray(at[i]).tolist() for i in range(len(c))]
+    out = []
+    for i in range(len(c)):
+        x = at[i]
+        out.append(x.tolist() if hasattr(x, "tolist") else x)
+    return out
 
 
 def snapshot(m):
@@ -320,7 +324,7 @@ def fn(case, ctx):
                         k = (cont, tag)
                         has = bool(c.has_attribute("c06_" + tag))
                         if k in mdl.attrs:
-                            if not ctx.check(has, "attr:lost", f"{where}: attribute c06_{tag} on the {cont} of mesh #{mdl.id} disappeared"):
+                            if not has and not ctx.check(False, "attr:lost", f"{where}: attribute c06_{tag} on the {cont} of mesh #{mdl.id} disappeared"):
                                 del mdl.attrs[k]
                                 continue
                             try:
@@ -331,8 +335,10 @@ def fn(case, ctx):
                                 continue
                             d = attr_default(tag)
                             exp = [mdl.attrs[k].get(i, d) for i in range(len(got))]
-                            if not ctx.check(got == exp, "attr:changed", f"{where}: attribute c06_{tag} on the {cont} of mesh #{mdl.id}"
-                                             f"{' (NOT the target of this step)' if exact else ''} reads {got}, expected {exp}"):
+                            if got == exp:
+                                ctx.check(True, "attr:changed", "")
+                            elif not ctx.check(False, "attr:changed", f"{where}: attribute c06_{tag} on the {cont} of mesh #{mdl.id}"
+                                               f"{' (NOT the target of this step)' if exact else ''} reads {got}, expected {exp}"):
                                 mdl.attrs[k] = {i: v for i, v in enumerate(got) if v != d}
                         elif mdl.attrs_known and has:
                             ctx.check(False, "attr:unexpected", f"{where}: mesh #{mdl.id} carries an attribute c06_{tag} on its {cont} that was never created on it "
